@@ -67,8 +67,18 @@ def mc_one(ctx, label, consts, sym, workers):
     raw = "CONSTANT Reports <- ReportsSplitOK\nCONSTANT Inits <- InitsMC\n"
     cfg = vf.cfg_text(constants=consts, invariants=["TypeOK", "InvQueueClean"], properties=["BlockChoice"], raw=raw,
                       symmetry="Sym" if sym else None)
-    vf.mc(ctx, "MC_AccQueue", cfg, workers=workers, timeout=3300, heap="6g", label="MC_AccQueue/" + label,
-          coverage=False)
+    cover = (not ctx.quick) and label == "hist2"          # vacuity guard on one small configuration
+    res = vf.mc(ctx, "MC_AccQueue", cfg, workers=workers, timeout=3300, heap="6g", label="MC_AccQueue/" + label,
+                coverage=cover)
+    if cover:
+        import re
+        acts = {}
+        for m in re.finditer(r"<(\w+) line [^>]*>: (\d+):(\d+)", res.out):
+            acts[m.group(1)] = acts.get(m.group(1), 0) + int(m.group(3))
+        ctx.cov["actions"].update(acts)
+        for a in ("Arrive", "Block"):
+            if not acts.get(a):
+                raise vf.Infra("vacuous model check: action %s never taken (%s)" % (a, acts))
 
 
 # ---------------------------------------------------------------- seeded random inputs (T-direction)
